@@ -1,10 +1,1390 @@
-//! C27 — not built yet.
+//! C27 Corrupt local data never crashes Routinator.
+//!
+//! Every reader of local cache data (stored point header / manifest / objects / whole stored-point file,
+//! store status, RRDP repository state, RRDP archive file) is run on truncations, bit flips, hostile
+//! length / pointer fields and arbitrary bytes. The code under test never runs inside rvcheck: each case
+//! is executed by a persistent worker process (`rvchild bytes-worker`) with
+//!   * panics caught and reported,
+//!   * a counting allocator that stops the worker (exit 77) at the first single request above
+//!     max(16 MiB, 64 x input length) — the property's "far beyond the file's size" bound,
+//!   * a CPU-time budget per case (SIGXCPU) and a wall-clock watchdog in the parent.
+//! Inputs are pre-screened by the harness' own field walker / archive reader; shapes listed as known
+//! findings are excluded from the bulk search by construction and one representative per key is run.
 
+use std::cell::RefCell;
+use std::collections::BTreeMap;
+use std::path::Path;
+use std::sync::{Arc, Mutex, OnceLock};
+
+use proptest::prelude::*;
+use routinator::collector::verif::RepositoryState;
+use routinator::collector::RrdpArchive;
+use routinator::store::{StoredManifest, StoredObject, StoredPoint, StoredPointHeader, StoredStatus};
+use rpki::uri;
+use serde::{Deserialize, Serialize};
+
+use crate::bw::{Handled, Outcome, Worker};
+use crate::bx::*;
 use crate::core::*;
 
-pub const IMPLEMENTED: bool = false;
+const OP_ARCHIVE: u8 = 6;
+const CALL_VERIFY: u8 = 1;
+const CALL_STATE: u8 = 2;
+const CALL_LOAD: u8 = 4;
+const CALL_OBJECTS: u8 = 8;
+const CALL_ALL: u8 = 15;
+const RRDP_META: u64 = 32;
 
-pub fn run(_ctx: &Ctx, _rep: &mut Report, _replay: Option<&serde_json::Value>) {
-    eprintln!("C27: check not implemented");
-    std::process::exit(2);
+//============ code under test, as run by the worker and by the libFuzzer targets ==================
+
+fn work_dir() -> &'static Path {
+    static D: OnceLock<tempfile::TempDir> = OnceLock::new();
+    D.get_or_init(|| {
+        let base = if Path::new("/dev/shm").is_dir() { "/dev/shm" } else { "/tmp" };
+        tempfile::Builder::new().prefix("rv-C27-work-").tempdir_in(base).expect("scratch")
+    })
+    .path()
 }
+
+fn ok_err<T, E: std::fmt::Display>(r: Result<T, E>) -> Handled {
+    match r {
+        Ok(_) => Handled { status: 0, msg: String::new() },
+        Err(e) => Handled { status: 1, msg: truncate(&e.to_string(), 200) },
+    }
+}
+
+/// Runs the decoder for `rec` on `data`. Status 4 = the reader made no progress / yields without end.
+pub fn decode_record(rec: Rec, data: &[u8]) -> Handled {
+    let mut s = data;
+    match rec {
+        Rec::Header => ok_err(StoredPointHeader::read(&mut s)),
+        Rec::Manifest => ok_err(StoredManifest::read(&mut s)),
+        Rec::Status => ok_err(StoredStatus::read(&mut s)),
+        Rec::State => ok_err(RepositoryState::verif_parse(&mut s)),
+        Rec::Objects => {
+            let mut n = 0usize;
+            loop {
+                let before = s.len();
+                match StoredObject::read(&mut s) {
+                    Ok(Some(_)) => n += 1,
+                    Ok(None) => return Handled { status: 0, msg: format!("{} objects", n) },
+                    Err(e) => return Handled { status: 1, msg: truncate(&e.to_string(), 200) },
+                }
+                if s.len() >= before {
+                    return Handled { status: 4, msg: "StoredObject::read returned an object without consuming input".into() };
+                }
+            }
+        }
+        Rec::Point => {
+            let path = work_dir().join("point.bin");
+            if std::fs::write(&path, data).is_err() {
+                return Handled { status: 1, msg: "harness: cannot write file".into() };
+            }
+            let Some(mut p) = StoredPoint::load_quietly(path) else { return Handled { status: 1, msg: "load_quietly: None".into() } };
+            let mut n = 0usize;
+            loop {
+                match p.next() {
+                    None => return Handled { status: 0, msg: format!("manifest={} objects={}", p.manifest().is_some(), n) },
+                    Some(Err(e)) => return Handled { status: 1, msg: truncate(&e.to_string(), 200) },
+                    Some(Ok(_)) => n += 1,
+                }
+                if n > data.len() + 1 {
+                    return Handled { status: 4, msg: "stored point yields more objects than the file has bytes".into() };
+                }
+            }
+        }
+    }
+}
+
+/// Runs the RRDP archive readers selected by `calls` on the file at `path`.
+pub fn read_archive(path: &Path, probes: &[uri::Rsync], calls: u8) -> Handled {
+    let file_len = std::fs::metadata(path).map(|m| m.len()).unwrap_or(0);
+    let mut log = Vec::new();
+    let mut any_err = false;
+    if calls & CALL_VERIFY != 0 {
+        match RrdpArchive::verify(path) {
+            Ok(st) => log.push(format!("verify=ok({} objects)", st.object_count)),
+            Err(e) => {
+                any_err = true;
+                log.push(format!("verify=err({})", e))
+            }
+        }
+    }
+    if calls & (CALL_STATE | CALL_LOAD | CALL_OBJECTS) != 0 {
+        match RrdpArchive::open(Arc::new(path.to_path_buf())) {
+            Err(e) => {
+                any_err = true;
+                log.push(format!("open=err(fatal={})", e.is_fatal()))
+            }
+            Ok(a) => {
+                if calls & CALL_STATE != 0 {
+                    match a.load_state() {
+                        Ok(_) => log.push("state=ok".into()),
+                        Err(e) => {
+                            any_err = true;
+                            log.push(format!("state=err(fatal={})", e.is_fatal()))
+                        }
+                    }
+                }
+                if calls & CALL_LOAD != 0 {
+                    let (mut found, mut missing, mut errs) = (0, 0, 0);
+                    for p in probes {
+                        match a.load_object(p) {
+                            Ok(Some(_)) => found += 1,
+                            Ok(None) => missing += 1,
+                            Err(_) => errs += 1,
+                        }
+                    }
+                    any_err |= errs > 0;
+                    log.push(format!("load=found{}/missing{}/err{}", found, missing, errs));
+                }
+                if calls & CALL_OBJECTS != 0 {
+                    match a.objects() {
+                        Err(e) => {
+                            any_err = true;
+                            log.push(format!("objects=err(fatal={})", e.is_fatal()))
+                        }
+                        Ok(iter) => {
+                            let bound = file_len / OBJ_HEADER + 2;
+                            let mut n = 0u64;
+                            let mut err = false;
+                            for item in iter {
+                                n += 1;
+                                if item.is_err() {
+                                    err = true;
+                                    break;
+                                }
+                                if n > bound {
+                                    return Handled { status: 4, msg: format!("objects() yielded {} items from a file of {} bytes (at most {} fit): the iteration does not end", n, file_len, bound) };
+                                }
+                            }
+                            any_err |= err;
+                            log.push(format!("objects={}{}", n, if err { "+err" } else { "" }));
+                        }
+                    }
+                }
+            }
+        }
+    }
+    Handled { status: if any_err { 1 } else { 0 }, msg: log.join(" ") }
+}
+
+fn parse_archive_payload(payload: &[u8]) -> Option<(u8, Vec<Vec<u8>>, &[u8])> {
+    let calls = *payload.first()?;
+    let n = *payload.get(1)? as usize;
+    let mut pos = 2;
+    let mut probes = Vec::new();
+    for _ in 0..n {
+        let len = u16::from_ne_bytes(payload.get(pos..pos + 2)?.try_into().ok()?) as usize;
+        pos += 2;
+        probes.push(payload.get(pos..pos + len)?.to_vec());
+        pos += len;
+    }
+    Some((calls, probes, &payload[pos..]))
+}
+
+fn archive_payload(calls: u8, probes: &[Vec<u8>], file: &[u8]) -> Vec<u8> {
+    let mut p = vec![calls, probes.len() as u8];
+    for pr in probes {
+        p.extend_from_slice(&(pr.len() as u16).to_ne_bytes());
+        p.extend_from_slice(pr);
+    }
+    p.extend_from_slice(file);
+    p
+}
+
+fn handler(op: u8, payload: &[u8]) -> Handled {
+    if op == OP_ARCHIVE {
+        let Some((calls, probes, file)) = parse_archive_payload(payload) else { return Handled { status: 1, msg: "harness: bad payload".into() } };
+        let path = work_dir().join("archive.bin");
+        let _ = std::fs::remove_file(&path);
+        if std::fs::write(&path, file).is_err() {
+            return Handled { status: 1, msg: "harness: cannot write file".into() };
+        }
+        let probes: Vec<uri::Rsync> = probes.iter().filter_map(|p| uri::Rsync::from_slice(p).ok()).collect();
+        return read_archive(&path, &probes, calls);
+    }
+    match Rec::from_id(op) {
+        Some(rec) => decode_record(rec, payload),
+        None => Handled { status: 1, msg: "harness: unknown op".into() },
+    }
+}
+
+fn limit_of(op: u8, payload: &[u8]) -> usize {
+    let len = if op == OP_ARCHIVE { parse_archive_payload(payload).map(|p| p.2.len()).unwrap_or(payload.len()) } else { payload.len() };
+    alloc_limit(len) as usize
+}
+
+/// Entry of `rvchild bytes-worker [raw]`.
+pub fn child_main(args: &[String]) {
+    let raw = args.iter().any(|a| a == "raw");
+    let _ = work_dir();
+    crate::bw::serve(handler, limit_of, !raw, 2);
+}
+
+//============ parent side =========================================================================
+
+pub fn site_key(site: Site) -> String {
+    format!("C27/binio/{}/oversize-length", site.name())
+}
+pub const KEY_BUCKET_ZERO: &str = "C27/archive/bucket-count-zero";
+pub const KEY_CYCLE_VERIFY: &str = "C27/archive/chain-cycle/verify";
+pub const KEY_CYCLE_FIND: &str = "C27/archive/chain-cycle/find";
+pub const KEY_CYCLE_OBJECTS: &str = "C27/archive/chain-cycle/objects";
+
+fn hazard_key(h: &ArchHazard) -> &'static str {
+    match h {
+        ArchHazard::BucketCountZero => KEY_BUCKET_ZERO,
+        ArchHazard::CycleVerify => KEY_CYCLE_VERIFY,
+        ArchHazard::CycleFind(_) => KEY_CYCLE_FIND,
+        ArchHazard::CycleObjects => KEY_CYCLE_OBJECTS,
+    }
+}
+
+fn norm_panic(msg: &str) -> String {
+    // "panicked at <file>:<line>:<col>:\n<text>" -> "<file basename>/<first words of text>"
+    let (loc, text) = msg.split_once('\n').unwrap_or(("", msg));
+    let file = loc.trim_start_matches("panicked at ").split(':').next().unwrap_or("").rsplit('/').next().unwrap_or("");
+    let words: Vec<String> = text.split_whitespace().take(7).map(|w| w.chars().map(|c| if c.is_ascii_digit() { '#' } else { c }).filter(|c| c.is_ascii_alphanumeric() || *c == '#').collect::<String>()).collect();
+    format!("{}/{}", file, words.join("-"))
+}
+
+fn effect(o: &Outcome) -> String {
+    match o {
+        Outcome::Done { status: 2, msg, .. } => format!("panic: {}", msg.replace('\n', " ")),
+        Outcome::Done { status: 4, msg, .. } => msg.clone(),
+        Outcome::Done { status, max_alloc, msg } => format!("returned status {} (largest single allocation {} bytes) {}", status, max_alloc, msg),
+        Outcome::AllocCap { size } => format!("asked the allocator for {} bytes in one request (worker stopped before serving it)", size),
+        Outcome::Died { signal, code, stderr } => format!("process died (signal {:?}, exit code {:?}) stderr: {}", signal, code, stderr),
+        Outcome::Timeout => "no answer before the wall-clock watchdog".into(),
+    }
+}
+
+fn is_bad(o: &Outcome) -> bool {
+    !matches!(o, Outcome::Done { status: 0 | 1, .. })
+}
+
+pub struct Exec {
+    worker: Mutex<Worker>,
+    raw: Mutex<Worker>,
+    excluded: RefCell<BTreeMap<String, u64>>,
+    max_alloc: RefCell<BTreeMap<String, u64>>,
+    /// unexpected failures that cost seconds each (CPU budget, watchdog): after a few of them further
+    /// cases are dropped unexecuted so that shrinking a hang does not take hours
+    slow: std::cell::Cell<u32>,
+}
+
+impl Exec {
+    pub fn new(dir: &Path) -> Self {
+        let d1 = dir.join("w1");
+        let d2 = dir.join("w2");
+        std::fs::create_dir_all(&d1).unwrap();
+        std::fs::create_dir_all(&d2).unwrap();
+        Exec { worker: Mutex::new(Worker::new(&d1, &["bytes-worker"])), raw: Mutex::new(Worker::new(&d2, &["bytes-worker", "raw"])), excluded: Default::default(), max_alloc: Default::default(), slow: Default::default() }
+    }
+
+    fn exclude(&self, key: &str) -> Verdict {
+        *self.excluded.borrow_mut().entry(key.to_string()).or_default() += 1;
+        Verdict::Dropped(format!("excluded-known-shape:{}", key))
+    }
+
+    fn note_alloc(&self, what: &str, o: &Outcome) {
+        if let Outcome::Done { max_alloc, .. } = o {
+            let mut m = self.max_alloc.borrow_mut();
+            let e = m.entry(what.to_string()).or_default();
+            *e = (*e).max(*max_alloc);
+        }
+    }
+
+    pub fn flush(&self, rep: &mut Report) {
+        for (k, n) in self.excluded.borrow_mut().iter() {
+            *rep.excluded_known.entry(k.clone()).or_default() += *n;
+        }
+        self.excluded.borrow_mut().clear();
+        rep.extra.insert("largest_single_allocation_seen_per_decoder".into(), serde_json::json!(*self.max_alloc.borrow()));
+        rep.extra.insert("worker_spawns".into(), serde_json::json!(self.worker.lock().unwrap().spawns + self.raw.lock().unwrap().spawns));
+    }
+
+    /// Unexpected bad outcome of a case the pre-screen found clean.
+    fn unexpected(&self, dec: &str, o: &Outcome, input: &[u8]) -> Verdict {
+        let shown = format!("input ({} bytes) = {}", input.len(), truncate(&to_hex(input), 1200));
+        match o {
+            Outcome::Done { status: 2, msg, .. } => Verdict::fail(format!("C27/{}/panic/{}", dec, norm_panic(msg)), format!("{}; {}", effect(o), shown)),
+            Outcome::Done { status: 4, .. } => Verdict::fail(format!("C27/{}/reader-does-not-end", dec), format!("{}; {}", effect(o), shown)),
+            Outcome::AllocCap { .. } => Verdict::fail(format!("C27/{}/allocation-over-limit", dec), format!("{}; limit {} bytes; {}", effect(o), alloc_limit(input.len()), shown)),
+            Outcome::Died { signal: Some(s), .. } if *s == libc::SIGXCPU => { self.slow.set(self.slow.get() + 1); Verdict::fail(format!("C27/{}/cpu-budget-exceeded", dec), format!("more than 2 s of CPU time on this input; {}", shown)) }
+            Outcome::Died { signal, code, .. } => Verdict::fail(format!("C27/{}/died/signal={:?}/code={:?}", dec, signal, code), format!("{}; {}", effect(o), shown)),
+            Outcome::Timeout => { self.slow.set(self.slow.get() + 1); Verdict::Dropped("worker_wall_clock_timeout".into()) }
+            Outcome::Done { .. } => Verdict::Pass,
+        }
+    }
+
+    /// One record-decoder case. `run_known`: execute even if the input has a known hazardous shape.
+    pub fn judge_record(&self, rec: Rec, data: &[u8], mutated: bool, run_known: bool, info: &mut CaseInfo) -> Verdict {
+        let limit = alloc_limit(data.len());
+        let w = walk(rec, data, limit);
+        info.class(format!("dec={}", rec.name()));
+        if self.slow.get() >= 4 && !run_known {
+            return Verdict::Dropped("slow-failure-budget-exhausted".into());
+        }
+        if let Stop::Oversize { site, field, value } = &w.stop {
+            let key = site_key(*site);
+            if !run_known {
+                return self.exclude(&key);
+            }
+            let o = self.worker.lock().unwrap().exec(rec.id(), data);
+            info.nt(true);
+            return if is_bad(&o) {
+                Verdict::fail(key, format!("decoder `{}`: length field `{}` = {} in an input of {} bytes: {}; input = {}", rec.name(), field, value, data.len(), effect(&o), truncate(&to_hex(data), 600)))
+            } else {
+                Verdict::Pass
+            };
+        }
+        let o = self.worker.lock().unwrap().exec(rec.id(), data);
+        self.note_alloc(rec.name(), &o);
+        match &o {
+            Outcome::Done { status, .. } if *status <= 1 => {
+                info.class(if *status == 0 { "result=decoded" } else { "result=error-reported" });
+                info.class(match &w.stop {
+                    Stop::Done(_) => "walker=complete",
+                    Stop::Eof(_) => "walker=eof",
+                    Stop::Format(_) => "walker=format",
+                    Stop::Oversize { .. } => "walker=oversize",
+                });
+                info.nt(w.fields_ok >= 1 && (mutated || *status == 1));
+                // self-test of the walker: it must agree with the decoder on accept / reject
+                let walker_ok = matches!(w.stop, Stop::Done(_)) || (matches!(rec, Rec::Objects | Rec::Point) && false);
+                if matches!(rec, Rec::Header | Rec::Manifest | Rec::Status | Rec::State) && walker_ok != (*status == 0) {
+                    return Verdict::Dropped(format!("walker_disagrees_with_decoder:{}", rec.name()));
+                }
+                Verdict::Pass
+            }
+            _ => self.unexpected(rec.name(), &o, data),
+        }
+    }
+
+    /// One archive-file case.
+    pub fn judge_archive(&self, file: &[u8], probes: &[Vec<u8>], calls: u8, run_known: bool, info: &mut CaseInfo) -> Verdict {
+        info.class("dec=archive");
+        if self.slow.get() >= 4 && !run_known {
+            return Verdict::Dropped("slow-failure-budget-exhausted".into());
+        }
+        let limit = alloc_limit(file.len());
+        let mut all_probes: Vec<Vec<u8>> = probes.to_vec();
+        all_probes.push(b"state".to_vec());
+        let mut known: Vec<String> = Vec::new();
+        for h in archive_hazards(file, RRDP_META, &all_probes) {
+            let relevant = match &h {
+                ArchHazard::BucketCountZero => calls & (CALL_STATE | CALL_LOAD) != 0,
+                ArchHazard::CycleVerify => calls & CALL_VERIFY != 0,
+                ArchHazard::CycleFind(n) => {
+                    if n == b"state" { calls & CALL_STATE != 0 } else { calls & CALL_LOAD != 0 }
+                }
+                ArchHazard::CycleObjects => calls & CALL_OBJECTS != 0,
+            };
+            if relevant {
+                known.push(hazard_key(&h).to_string());
+            }
+        }
+        let mut state_note = String::new();
+        if calls & CALL_STATE != 0 {
+            if let Some(a) = RawArchive::open(file) {
+                if a.buckets != 0 && a.find_cycles(b"state") == Some(false) {
+                    if let Some(content) = a.fetch(b"state", RRDP_META) {
+                        if let Stop::Oversize { site, field, value } = walk(Rec::State, content, limit).stop {
+                            known.push(site_key(site));
+                            state_note = format!("state object: length field `{}` = {}; ", field, value);
+                        }
+                    }
+                }
+            }
+        }
+        if let Some(key) = known.first() {
+            if !run_known {
+                return self.exclude(key);
+            }
+            let o = self.worker.lock().unwrap().exec(OP_ARCHIVE, &archive_payload(calls, probes, file));
+            info.nt(true);
+            return if is_bad(&o) {
+                Verdict::fail(key.clone(), format!("archive file of {} bytes, reader calls {:#06b}: {}{}", file.len(), calls, state_note, effect(&o)))
+            } else {
+                Verdict::Pass
+            };
+        }
+        let o = self.worker.lock().unwrap().exec(OP_ARCHIVE, &archive_payload(calls, probes, file));
+        self.note_alloc("archive", &o);
+        match &o {
+            Outcome::Done { status, msg, .. } if *status <= 1 => {
+                info.class(if *status == 0 { "result=all-readers-ok" } else { "result=error-reported" });
+                let passed_magic = file.len() >= 30 && file[..6] == ARCH_MAGIC;
+                info.nt(passed_magic && *status == 1);
+                if msg.contains("state=ok") {
+                    info.class("state=ok");
+                }
+                Verdict::Pass
+            }
+            _ => self.unexpected("archive", &o, file),
+        }
+    }
+
+    /// Runs `data` through the *uncapped* worker to record what the unprotected process does.
+    pub fn raw_effect(&self, op: u8, payload: &[u8]) -> String {
+        let o = self.raw.lock().unwrap().exec(op, payload);
+        effect(&o)
+    }
+}
+
+//============ cases ==============================================================================
+
+/// Selects an element of a collection: `index(n) = value mod n`.
+#[derive(Clone, Copy, Debug, PartialEq, Eq, Serialize, Deserialize)]
+pub struct Index(pub u64);
+
+impl Index {
+    pub fn index(&self, n: usize) -> usize {
+        if n == 0 { 0 } else { (self.0 % n as u64) as usize }
+    }
+}
+
+fn ix() -> impl Strategy<Value = Index> {
+    any::<u64>().prop_map(Index)
+}
+
+#[derive(Clone, Debug, Serialize, Deserialize)]
+pub enum Base {
+    Header(MHeader),
+    Manifest(MManifest),
+    Objects(Vec<MObject>),
+    Status(MTime),
+    State(MState),
+    Point(MHeader, MManifest, Vec<MObject>),
+}
+
+impl Base {
+    pub fn rec(&self) -> Rec {
+        match self {
+            Base::Header(_) => Rec::Header,
+            Base::Manifest(_) => Rec::Manifest,
+            Base::Objects(_) => Rec::Objects,
+            Base::Status(_) => Rec::Status,
+            Base::State(_) => Rec::State,
+            Base::Point(..) => Rec::Point,
+        }
+    }
+    pub fn encode(&self) -> Enc {
+        match self {
+            Base::Header(h) => enc_header(h),
+            Base::Manifest(m) => enc_manifest(m),
+            Base::Objects(os) => {
+                let mut e = Enc::default();
+                for o in os {
+                    e.append(&enc_object(o));
+                }
+                e
+            }
+            Base::Status(t) => enc_status(t),
+            Base::State(s) => enc_state(s),
+            Base::Point(h, m, os) => {
+                let mut e = enc_header(h);
+                if h.success {
+                    e.append(&enc_manifest(m));
+                    for o in os {
+                        e.append(&enc_object(o));
+                    }
+                }
+                e
+            }
+        }
+    }
+}
+
+/// Values written into length / count fields.
+#[derive(Clone, Copy, Debug, PartialEq, Eq, Serialize, Deserialize)]
+pub enum LenVal {
+    Zero,
+    One,
+    ActualMinus1,
+    ActualPlus1,
+    RestPlus1,
+    K64,
+    Limit,
+    LimitPlus1,
+    Pow31,
+    U32Max,
+    Pow32,
+    Pow40,
+    Pow62,
+    Pow63,
+    U64MaxMinus1,
+    U64Max,
+}
+
+impl LenVal {
+    pub const ALL: [LenVal; 16] = [
+        LenVal::Zero, LenVal::One, LenVal::ActualMinus1, LenVal::ActualPlus1, LenVal::RestPlus1, LenVal::K64, LenVal::Limit, LenVal::LimitPlus1, LenVal::Pow31, LenVal::U32Max, LenVal::Pow32, LenVal::Pow40,
+        LenVal::Pow62, LenVal::Pow63, LenVal::U64MaxMinus1, LenVal::U64Max,
+    ];
+    fn value(self, actual: u64, rest: u64, total: usize) -> u64 {
+        match self {
+            LenVal::Zero => 0,
+            LenVal::One => 1,
+            LenVal::ActualMinus1 => actual.saturating_sub(1),
+            LenVal::ActualPlus1 => actual + 1,
+            LenVal::RestPlus1 => rest + 1,
+            LenVal::K64 => 65536,
+            LenVal::Limit => alloc_limit(total),
+            LenVal::LimitPlus1 => alloc_limit(total) + 1,
+            LenVal::Pow31 => 1 << 31,
+            LenVal::U32Max => u32::MAX as u64,
+            LenVal::Pow32 => 1 << 32,
+            LenVal::Pow40 => 1 << 40,
+            LenVal::Pow62 => 1 << 62,
+            LenVal::Pow63 => 1 << 63,
+            LenVal::U64MaxMinus1 => u64::MAX - 1,
+            LenVal::U64Max => u64::MAX,
+        }
+    }
+}
+
+#[derive(Clone, Debug, Serialize, Deserialize)]
+pub enum Mutation {
+    None,
+    /// keep only a prefix
+    Truncate(Index),
+    /// flip one bit of a structural field (version, tag, length, count)
+    FlipStruct { field: Index, bit: u8 },
+    /// flip one bit anywhere
+    FlipAny { at: Index, bit: u8 },
+    /// overwrite a length / count field
+    SetLen { field: Index, value: LenVal },
+    /// delete up to `del` bytes at `at` and insert `ins`
+    Splice { at: Index, del: u8, ins: Hex },
+}
+
+fn struct_fields(e: &Enc) -> Vec<&Field> {
+    e.fields.iter().filter(|f| matches!(f.kind, FieldKind::Version | FieldKind::Tag | FieldKind::Len32 | FieldKind::Len64 | FieldKind::Count64)).collect()
+}
+fn len_fields(e: &Enc) -> Vec<&Field> {
+    e.fields.iter().filter(|f| matches!(f.kind, FieldKind::Len32 | FieldKind::Len64 | FieldKind::Count64)).collect()
+}
+
+fn set_len(d: &mut [u8], f: &Field, v: LenVal) {
+    let total = d.len();
+    let rest = (total - f.off - f.len) as u64;
+    if f.len == 4 {
+        let actual = u32::from_be_bytes(d[f.off..f.off + 4].try_into().unwrap()) as u64;
+        let val = v.value(actual, rest, total) as u32; // truncating: the field has 32 bits
+        d[f.off..f.off + 4].copy_from_slice(&val.to_be_bytes());
+    } else {
+        let actual = u64::from_be_bytes(d[f.off..f.off + 8].try_into().unwrap());
+        let val = v.value(actual, rest, total);
+        d[f.off..f.off + 8].copy_from_slice(&val.to_be_bytes());
+    }
+}
+
+pub fn apply(e: &Enc, m: &Mutation) -> Vec<u8> {
+    let mut d = e.data.clone();
+    match m {
+        Mutation::None => {}
+        Mutation::Truncate(ix) => {
+            if !d.is_empty() {
+                d.truncate(ix.index(d.len()));
+            }
+        }
+        Mutation::FlipStruct { field, bit } => {
+            let fs = struct_fields(e);
+            if !fs.is_empty() {
+                let f = fs[field.index(fs.len())];
+                let b = *bit as usize % (f.len * 8);
+                d[f.off + b / 8] ^= 0x80 >> (b % 8);
+            }
+        }
+        Mutation::FlipAny { at, bit } => {
+            if !d.is_empty() {
+                let i = at.index(d.len());
+                d[i] ^= 1 << (bit % 8);
+            }
+        }
+        Mutation::SetLen { field, value } => {
+            let fs = len_fields(e);
+            if !fs.is_empty() {
+                let f = fs[field.index(fs.len())].clone();
+                set_len(&mut d, &f, *value);
+            }
+        }
+        Mutation::Splice { at, del, ins } => {
+            let i = at.index(d.len() + 1);
+            let end = (i + *del as usize).min(d.len());
+            d.splice(i..end, ins.0.iter().copied());
+        }
+    }
+    d
+}
+
+fn mutation_class(m: &Mutation) -> &'static str {
+    match m {
+        Mutation::None => "mut=none",
+        Mutation::Truncate(_) => "mut=truncate",
+        Mutation::FlipStruct { .. } => "mut=flip-struct",
+        Mutation::FlipAny { .. } => "mut=flip-any",
+        Mutation::SetLen { .. } => "mut=set-len",
+        Mutation::Splice { .. } => "mut=splice",
+    }
+}
+
+#[derive(Clone, Debug, Serialize, Deserialize)]
+pub struct RecCase {
+    pub base: Base,
+    pub mutation: Mutation,
+}
+
+#[derive(Clone, Debug, Serialize, Deserialize)]
+pub struct RawCase {
+    pub rec: Rec,
+    pub data: Hex,
+}
+
+//------------ archives ----------------------------------------------------------------------------
+
+#[derive(Clone, Debug, Serialize, Deserialize)]
+pub struct ArchRecipe {
+    pub key: u64,
+    pub buckets: u16,
+    pub state: Option<MState>,
+    /// (uri number, content)
+    pub objects: Vec<(u8, MBytes)>,
+    /// indexes into `objects` deleted again (leaves free blocks)
+    pub deletes: Vec<u8>,
+}
+
+pub fn probe_uri(i: u8) -> Vec<u8> {
+    format!("rsync://h.example/m/o{}.cer", i % 12).into_bytes()
+}
+pub fn all_probes() -> Vec<Vec<u8>> {
+    (0..12).map(probe_uri).collect()
+}
+
+static ARCH_NO: std::sync::atomic::AtomicU64 = std::sync::atomic::AtomicU64::new(0);
+
+/// Builds the archive file with the real writer (valid operations on a valid archive, in-process).
+pub fn build_archive(dir: &Path, r: &ArchRecipe) -> Result<Vec<u8>, String> {
+    let path = dir.join(format!("base-{}.bin", ARCH_NO.fetch_add(1, std::sync::atomic::Ordering::SeqCst)));
+    let mut key = [0u8; 16];
+    key[..8].copy_from_slice(&r.key.to_le_bytes());
+    key[8..].copy_from_slice(&(!r.key).to_le_bytes());
+    std::fs::write(&path, empty_archive(key, r.buckets.max(1) as u64)).map_err(|e| e.to_string())?;
+    let res = (|| {
+        let mut a = RrdpArchive::try_open(Arc::new(path.clone())).map_err(|_| "try_open failed".to_string())?.ok_or("archive vanished")?;
+        if let Some(s) = &r.state {
+            a.publish_state(&s.to_real()).map_err(|_| "publish_state failed".to_string())?;
+        }
+        let mut have: BTreeMap<u8, Vec<u8>> = BTreeMap::new();
+        for (n, c) in &r.objects {
+            let n = n % 12;
+            if have.contains_key(&n) {
+                continue;
+            }
+            let content = c.expand();
+            a.publish_object(&uri::Rsync::from_slice(&probe_uri(n)).unwrap(), &content).map_err(|e| format!("publish_object: {:?}", e))?;
+            have.insert(n, content);
+        }
+        for d in &r.deletes {
+            if r.objects.is_empty() {
+                break;
+            }
+            let n = r.objects[*d as usize % r.objects.len()].0 % 12;
+            if let Some(content) = have.remove(&n) {
+                a.delete_object(&uri::Rsync::from_slice(&probe_uri(n)).unwrap(), rpki::rrdp::Hash::from_data(&content)).map_err(|e| format!("delete_object: {:?}", e))?;
+            }
+        }
+        drop(a);
+        std::fs::read(&path).map_err(|e| e.to_string())
+    })();
+    let _ = std::fs::remove_file(&path);
+    res
+}
+
+#[derive(Clone, Copy, Debug, Serialize, Deserialize, PartialEq, Eq)]
+pub enum AField {
+    BucketCount,
+    /// one of the index slots (including the free-chain slot)
+    IndexSlot,
+    BlockSize,
+    BlockNext,
+    BlockEmptyFlag,
+    BlockNameLen,
+    BlockDataLen,
+}
+
+impl AField {
+    pub const ALL: [AField; 7] = [AField::BucketCount, AField::IndexSlot, AField::BlockSize, AField::BlockNext, AField::BlockEmptyFlag, AField::BlockNameLen, AField::BlockDataLen];
+}
+
+#[derive(Clone, Copy, Debug, Serialize, Deserialize, PartialEq, Eq)]
+pub enum AVal {
+    Zero,
+    One,
+    Two,
+    /// the position of the block the field belongs to (a self loop for `next`)
+    SelfPos,
+    /// the position of another block
+    OtherBlock,
+    /// the first block of the data area
+    FirstBlock,
+    /// inside the index
+    IndexArea,
+    FileLenMinus1,
+    FileLen,
+    FileLenPlus1,
+    Pow31,
+    Pow63,
+    Max,
+}
+
+impl AVal {
+    pub const ALL: [AVal; 13] = [AVal::Zero, AVal::One, AVal::Two, AVal::SelfPos, AVal::OtherBlock, AVal::FirstBlock, AVal::IndexArea, AVal::FileLenMinus1, AVal::FileLen, AVal::FileLenPlus1, AVal::Pow31, AVal::Pow63, AVal::Max];
+}
+
+#[derive(Clone, Debug, Serialize, Deserialize)]
+pub enum AMut {
+    None,
+    Truncate(Index),
+    FlipAny { at: Index, bit: u8 },
+    /// flip a bit inside the file header, the used index slots or a block header
+    FlipStruct { at: Index, bit: u8 },
+    SetField { field: AField, which: Index, other: Index, value: AVal },
+    /// overwrite a length field inside the stored state record
+    StateLen { field: Index, value: LenVal },
+    Splice { at: Index, del: u8, ins: Hex },
+}
+
+/// Offsets of structural bytes of a valid archive: meta (key + bucket count), non-empty index slots and
+/// the free slot, every block header.
+fn arch_struct_offsets(l: &Layout) -> Vec<usize> {
+    let mut v: Vec<usize> = (6..30).collect();
+    for b in 0..=l.buckets {
+        let off = (ARCH_META_END + b * 8) as usize;
+        v.extend(off..off + 8);
+        if b > 16 {
+            break;
+        }
+    }
+    for b in &l.blocks {
+        v.extend(b.pos as usize..(b.pos + OBJ_HEADER) as usize);
+    }
+    v
+}
+
+pub fn apply_arch(file: &[u8], m: &AMut) -> Vec<u8> {
+    let mut d = file.to_vec();
+    let layout = read_layout(file, RRDP_META).ok();
+    match m {
+        AMut::None => {}
+        AMut::Truncate(ix) => d.truncate(ix.index(d.len().max(1))),
+        AMut::FlipAny { at, bit } => {
+            let i = at.index(d.len());
+            d[i] ^= 1 << (bit % 8);
+        }
+        AMut::FlipStruct { at, bit } => {
+            if let Some(l) = &layout {
+                let offs = arch_struct_offsets(l);
+                let i = offs[at.index(offs.len())];
+                d[i] ^= 1 << (bit % 8);
+            }
+        }
+        AMut::Splice { at, del, ins } => {
+            let i = at.index(d.len() + 1);
+            let end = (i + *del as usize).min(d.len());
+            d.splice(i..end, ins.0.iter().copied());
+        }
+        AMut::StateLen { field, value } => {
+            if let Some(l) = &layout {
+                if let Some(b) = l.objects().find(|b| b.name == b"state") {
+                    // locate the state record inside the file and its length fields through the walker's twin: re-encode is not
+                    // possible (map order), so find length fields by walking the stored bytes
+                    let start = (b.pos + OBJ_HEADER + b.name.len() as u64 + RRDP_META) as usize;
+                    let content = &b.data;
+                    let fields = state_len_fields(content);
+                    if !fields.is_empty() {
+                        let (off, len) = fields[field.index(fields.len())];
+                        let f = Field { name: "state", kind: FieldKind::Len64, off, len };
+                        let mut c = content.clone();
+                        set_len(&mut c, &f, *value);
+                        d[start..start + c.len()].copy_from_slice(&c);
+                    }
+                }
+            }
+        }
+        AMut::SetField { field, which, other, value } => {
+            if let Some(l) = &layout {
+                if l.blocks.is_empty() && !matches!(field, AField::BucketCount | AField::IndexSlot) {
+                    return d;
+                }
+                let blk = if l.blocks.is_empty() { None } else { Some(&l.blocks[which.index(l.blocks.len())]) };
+                let self_pos = blk.map(|b| b.pos).unwrap_or(l.index_end);
+                let other_pos = if l.blocks.is_empty() { l.index_end } else { l.blocks[other.index(l.blocks.len())].pos };
+                let val: u64 = match value {
+                    AVal::Zero => 0,
+                    AVal::One => 1,
+                    AVal::Two => 2,
+                    AVal::SelfPos => self_pos,
+                    AVal::OtherBlock => other_pos,
+                    AVal::FirstBlock => l.index_end,
+                    AVal::IndexArea => ARCH_META_END + 8,
+                    AVal::FileLenMinus1 => l.file_len - 1,
+                    AVal::FileLen => l.file_len,
+                    AVal::FileLenPlus1 => l.file_len + 1,
+                    AVal::Pow31 => 1 << 31,
+                    AVal::Pow63 => 1 << 63,
+                    AVal::Max => u64::MAX,
+                };
+                let (off, width) = match field {
+                    AField::BucketCount => (22usize, 8usize),
+                    AField::IndexSlot => {
+                        // prefer slots in use
+                        let used: Vec<u64> = (0..=l.buckets).filter(|b| d[(ARCH_META_END + b * 8) as usize..(ARCH_META_END + b * 8 + 8) as usize] != [0u8; 8]).collect();
+                        let slot = if used.is_empty() { which.index(l.buckets as usize + 1) as u64 } else { used[which.index(used.len())] };
+                        ((ARCH_META_END + slot * 8) as usize, 8)
+                    }
+                    AField::BlockSize => (self_pos as usize, 8),
+                    AField::BlockNext => (self_pos as usize + 8, 8),
+                    AField::BlockEmptyFlag => (self_pos as usize + 16, 1),
+                    AField::BlockNameLen => (self_pos as usize + 17, 8),
+                    AField::BlockDataLen => (self_pos as usize + 25, 8),
+                };
+                if width == 1 {
+                    d[off] = val as u8;
+                } else {
+                    d[off..off + 8].copy_from_slice(&val.to_ne_bytes());
+                }
+            }
+        }
+    }
+    d
+}
+
+/// (offset, width) of the length / count fields of a valid encoded state record.
+fn state_len_fields(c: &[u8]) -> Vec<(usize, usize)> {
+    let mut v = Vec::new();
+    if c.len() < 5 {
+        return v;
+    }
+    v.push((1, 4));
+    let ulen = u32::from_be_bytes(c[1..5].try_into().unwrap()) as usize;
+    let mut p = 5 + ulen + 16 + 8 + 8 + 8;
+    if p >= c.len() {
+        return v;
+    }
+    p += if c[p] == 1 { 9 } else { 1 };
+    if p + 8 > c.len() {
+        return v;
+    }
+    v.push((p, 8));
+    let el = u64::from_be_bytes(c[p..p + 8].try_into().unwrap());
+    p += 8;
+    if el != u64::MAX {
+        p += el as usize;
+    }
+    if p + 8 <= c.len() {
+        v.push((p, 8));
+    }
+    v
+}
+
+fn amut_class(m: &AMut) -> String {
+    match m {
+        AMut::None => "mut=none".into(),
+        AMut::Truncate(_) => "mut=truncate".into(),
+        AMut::FlipAny { .. } => "mut=flip-any".into(),
+        AMut::FlipStruct { .. } => "mut=flip-struct".into(),
+        AMut::SetField { field, .. } => format!("mut=set-{:?}", field),
+        AMut::StateLen { .. } => "mut=state-len".into(),
+        AMut::Splice { .. } => "mut=splice".into(),
+    }
+}
+
+#[derive(Clone, Debug, Serialize, Deserialize)]
+pub struct ArchCase {
+    pub recipe: ArchRecipe,
+    pub mutation: AMut,
+}
+
+//============ strategies ==========================================================================
+
+fn base_strategy() -> impl Strategy<Value = Base> {
+    prop_oneof![
+        2 => header_strategy().prop_map(Base::Header),
+        3 => manifest_strategy(400).prop_map(Base::Manifest),
+        3 => prop::collection::vec(object_strategy(400), 1..4).prop_map(Base::Objects),
+        1 => mtime_strategy().prop_map(Base::Status),
+        3 => state_strategy(12).prop_map(Base::State),
+        3 => (header_strategy(), manifest_strategy(300), prop::collection::vec(object_strategy(300), 0..4)).prop_map(|(h, m, o)| Base::Point(h, m, o)),
+    ]
+}
+
+fn lenval_strategy() -> impl Strategy<Value = LenVal> {
+    prop::sample::select(LenVal::ALL.to_vec())
+}
+
+fn mutation_strategy() -> impl Strategy<Value = Mutation> {
+    prop_oneof![
+        1 => Just(Mutation::None),
+        4 => ix().prop_map(Mutation::Truncate),
+        5 => (ix(), any::<u8>()).prop_map(|(field, bit)| Mutation::FlipStruct { field, bit }),
+        4 => (ix(), any::<u8>()).prop_map(|(at, bit)| Mutation::FlipAny { at, bit }),
+        5 => (ix(), lenval_strategy()).prop_map(|(field, value)| Mutation::SetLen { field, value }),
+        3 => (ix(), 0u8..12, prop::collection::vec(any::<u8>(), 0..12)).prop_map(|(at, del, ins)| Mutation::Splice { at, del, ins: Hex(ins) }),
+    ]
+}
+
+fn raw_strategy() -> impl Strategy<Value = RawCase> {
+    let data = prop_oneof![
+        prop::collection::vec(any::<u8>(), 0..120),
+        // plausible first bytes (versions, tags) followed by noise
+        (prop::sample::select(vec![0u8, 1, 2]), prop::collection::vec(prop_oneof![Just(0u8), Just(1), Just(0xff), any::<u8>()], 0..120)).prop_map(|(v, mut d)| {
+            d.insert(0, v);
+            d
+        }),
+    ];
+    (prop::sample::select(Rec::ALL.to_vec()), data).prop_map(|(rec, data)| RawCase { rec, data: Hex(data) })
+}
+
+fn recipe_strategy() -> impl Strategy<Value = ArchRecipe> {
+    (
+        1u64..1000,
+        prop_oneof![3 => Just(1u16), 3 => Just(2), 2 => Just(4), 1 => Just(1024)],
+        prop::option::weighted(0.9, state_strategy(6)),
+        prop::collection::vec((0u8..12, mbytes_strategy(600)), 0..6),
+        prop::collection::vec(any::<u8>(), 0..3),
+    )
+        .prop_map(|(key, buckets, state, objects, deletes)| ArchRecipe { key, buckets, state, objects, deletes })
+}
+
+fn amut_strategy() -> impl Strategy<Value = AMut> {
+    prop_oneof![
+        1 => Just(AMut::None),
+        3 => ix().prop_map(AMut::Truncate),
+        3 => (ix(), any::<u8>()).prop_map(|(at, bit)| AMut::FlipAny { at, bit }),
+        6 => (ix(), any::<u8>()).prop_map(|(at, bit)| AMut::FlipStruct { at, bit }),
+        8 => (prop::sample::select(AField::ALL.to_vec()), ix(), ix(), prop::sample::select(AVal::ALL.to_vec())).prop_map(|(field, which, other, value)| AMut::SetField { field, which, other, value }),
+        2 => (ix(), lenval_strategy()).prop_map(|(field, value)| AMut::StateLen { field, value }),
+        2 => (ix(), 0u8..40, prop::collection::vec(any::<u8>(), 0..40)).prop_map(|(at, del, ins)| AMut::Splice { at, del, ins: Hex(ins) }),
+    ]
+}
+
+//============ fixed bases for the exhaustive sweeps =================================================
+
+fn fixed_bases() -> Vec<Base> {
+    let h1 = MHeader { uri: "rsync://example.com/test/test.mft".into(), notify: Some("https://example.com/notification.xml".into()), success: true, secs: 1_700_000_000 };
+    let h2 = MHeader { uri: "rsync://a/b/".into(), notify: None, success: false, secs: -1 };
+    let m = MManifest {
+        not_after: MTime { secs: 1_759_335_022, nanos: 0 },
+        number: Hex({
+            let mut a = vec![0u8; 20];
+            a[19] = 7;
+            a
+        }),
+        this_update: MTime { secs: 1_275_552_660, nanos: 0 },
+        ca_repository: "rsync://example.com/test/".into(),
+        manifest: MBytes::of(b"deadbeef"),
+        crl_uri: "rsync://example.com/test/test.crl".into(),
+        crl: MBytes::of(b"crlbytesgohere"),
+    };
+    let o1 = MObject { uri: "rsync://example.com/test/obj1.bin".into(), hash: Some(Hex(vec![7; 32])), content: MBytes::of(b"object1content") };
+    let o2 = MObject { uri: "rsync://example.com/test/obj2.bin".into(), hash: None, content: MBytes::of(b"object2stuff") };
+    let s1 = MState { notify: "https://foo.bar/baz".into(), session: Hex(vec![0xa1; 16]), serial: 0x1234, updated: 1_700_000_000, best_before: 1_700_003_600, last_modified: Some(1_699_999_000), etag: Some(MBytes::of(b"W/\"abc\"")), deltas: vec![(18, 3), (19, 4)] };
+    let s2 = MState { notify: "https://foo.bar/baz".into(), session: Hex(vec![0; 16]), serial: 0, updated: 0, best_before: 0, last_modified: None, etag: None, deltas: vec![] };
+    vec![
+        Base::Header(h1.clone()),
+        Base::Header(h2),
+        Base::Manifest(m.clone()),
+        Base::Objects(vec![o1.clone(), o2.clone()]),
+        Base::Status(MTime { secs: 1_700_000_000, nanos: 0 }),
+        Base::State(s1),
+        Base::State(s2),
+        Base::Point(h1, m, vec![o1, o2]),
+    ]
+}
+
+fn fixed_recipe() -> ArchRecipe {
+    let state = MState { notify: "https://foo.bar/baz".into(), session: Hex(vec![0xa1; 16]), serial: 7, updated: 1_700_000_000, best_before: 1_700_003_600, last_modified: Some(1_699_999_000), etag: Some(MBytes::of(b"\"abc\"")), deltas: vec![(6, 1), (7, 2)] };
+    ArchRecipe { key: 11, buckets: 2, state: Some(state), objects: vec![(0, MBytes::of(b"object zero")), (1, MBytes { len: 300, seed: 5, head: Hex(vec![]) }), (2, MBytes::of(b"two")), (3, MBytes::of(b"three"))], deletes: vec![1] }
+}
+
+//============ known-finding representatives ========================================================
+
+#[derive(Clone, Debug, Serialize, Deserialize)]
+pub enum KnownCase {
+    /// hostile length at a binio site: (record, field name, value)
+    Length { base: Base, field: String, value: LenVal },
+    /// archive file shapes
+    BucketZero,
+    SelfLoopVerify,
+    SelfLoopFind,
+    SelfLoopObjects,
+}
+
+fn known_cases() -> Vec<KnownCase> {
+    let b = fixed_bases();
+    vec![
+        KnownCase::Length { base: b[2].clone(), field: "ca_repository".into(), value: LenVal::Pow31 },
+        KnownCase::Length { base: b[5].clone(), field: "rpki_notify".into(), value: LenVal::Pow31 },
+        KnownCase::Length { base: b[0].clone(), field: "rpki_notify".into(), value: LenVal::Pow31 },
+        KnownCase::Length { base: b[2].clone(), field: "manifest".into(), value: LenVal::Pow62 },
+        KnownCase::Length { base: b[2].clone(), field: "manifest".into(), value: LenVal::Pow63 },
+        KnownCase::Length { base: b[5].clone(), field: "etag".into(), value: LenVal::Pow62 },
+        KnownCase::Length { base: b[5].clone(), field: "delta_state".into(), value: LenVal::Pow40 },
+        KnownCase::Length { base: b[5].clone(), field: "delta_state".into(), value: LenVal::U64Max },
+        KnownCase::BucketZero,
+        KnownCase::SelfLoopVerify,
+        KnownCase::SelfLoopFind,
+        KnownCase::SelfLoopObjects,
+    ]
+}
+
+fn judge_known(x: &Exec, dir: &Path, c: &KnownCase, info: &mut CaseInfo) -> Verdict {
+    info.class("directed_known_shape");
+    match c {
+        KnownCase::Length { base, field, value } => {
+            let e = base.encode();
+            let Some(f) = len_fields(&e).into_iter().find(|f| f.name == field.as_str()).cloned() else { return Verdict::Dropped("no such field".into()) };
+            let mut d = e.data.clone();
+            set_len(&mut d, &f, *value);
+            let v = x.judge_record(base.rec(), &d, true, true, info);
+            match v {
+                Verdict::Fail { key, msg } if matches!(value, LenVal::Pow62) && field == "manifest" => {
+                    // what the unprotected process does with the same bytes
+                    let raw = x.raw_effect(base.rec().id(), &d);
+                    Verdict::Fail { key, msg: format!("{} || without the allocation cap: {}", msg, raw) }
+                }
+                other => other,
+            }
+        }
+        KnownCase::BucketZero | KnownCase::SelfLoopVerify | KnownCase::SelfLoopFind | KnownCase::SelfLoopObjects => {
+            let file = match build_archive(dir, &fixed_recipe()) {
+                Ok(f) => f,
+                Err(e) => return Verdict::Dropped(format!("cannot build base archive: {}", e)),
+            };
+            let Ok(l) = read_layout(&file, RRDP_META) else { return Verdict::Dropped("base archive unreadable".into()) };
+            let mut d = file.clone();
+            let calls = match c {
+                KnownCase::BucketZero => {
+                    d[22..30].copy_from_slice(&0u64.to_ne_bytes());
+                    CALL_STATE
+                }
+                KnownCase::SelfLoopVerify => {
+                    let b = l.objects().next().unwrap();
+                    d[b.pos as usize + 8..b.pos as usize + 16].copy_from_slice(&b.pos.to_ne_bytes());
+                    CALL_VERIFY
+                }
+                KnownCase::SelfLoopFind => {
+                    // the chain of the bucket of a name that is absent: point its last member at itself
+                    let probe = probe_uri(9);
+                    let bucket = sip_bucket(&l.key, &probe, l.buckets).unwrap();
+                    let Some(b) = l.objects().filter(|b| b.bucket == Some(bucket)).last() else { return Verdict::Dropped("empty bucket".into()) };
+                    // find the member whose next is 0
+                    let tail = l.objects().filter(|b| b.bucket == Some(bucket)).find(|b| raw_header(&file, b.pos).map(|h| h.next == 0).unwrap_or(false)).unwrap_or(b);
+                    d[tail.pos as usize + 8..tail.pos as usize + 16].copy_from_slice(&tail.pos.to_ne_bytes());
+                    CALL_LOAD
+                }
+                _ => {
+                    let b = l.objects().next().unwrap();
+                    d[b.pos as usize + 8..b.pos as usize + 16].copy_from_slice(&b.pos.to_ne_bytes());
+                    CALL_OBJECTS
+                }
+            };
+            let probes = if matches!(c, KnownCase::SelfLoopFind) { vec![probe_uri(9)] } else { vec![] };
+            match x.judge_archive(&d, &probes, calls, true, info) {
+                Verdict::Fail { key, msg } => Verdict::Fail { key, msg: format!("{}; file = base archive (recipe key 11, 2 buckets) with {}", msg, describe_patch(&file, &d)) },
+                other => other,
+            }
+        }
+    }
+}
+
+fn describe_patch(a: &[u8], b: &[u8]) -> String {
+    let diffs: Vec<usize> = (0..a.len().min(b.len())).filter(|i| a[*i] != b[*i]).collect();
+    match (diffs.first(), diffs.last()) {
+        (Some(f), Some(l)) => format!("bytes {}..={} changed from {} to {}", f, l, to_hex(&a[*f..=*l]), to_hex(&b[*f..=*l])),
+        _ => "no change".into(),
+    }
+}
+
+//============ libFuzzer bodies (in-process; hazardous shapes are skipped by the same pre-screen) ====
+
+pub fn fuzz_record(rec: Rec, data: &[u8]) {
+    if matches!(walk(rec, data, alloc_limit(data.len())).stop, Stop::Oversize { .. }) {
+        return;
+    }
+    let h = decode_record(rec, data);
+    if h.status == 4 {
+        panic!("{}", h.msg);
+    }
+}
+
+pub fn fuzz_archive(data: &[u8]) {
+    let probes = all_probes();
+    let mut all = probes.clone();
+    all.push(b"state".to_vec());
+    if !archive_hazards(data, RRDP_META, &all).is_empty() {
+        return;
+    }
+    if let Some(a) = RawArchive::open(data) {
+        if let Some(c) = a.fetch(b"state", RRDP_META) {
+            if matches!(walk(Rec::State, c, alloc_limit(data.len())).stop, Stop::Oversize { .. }) {
+                return;
+            }
+        }
+    }
+    let path = work_dir().join(format!("fuzz-archive-{}.bin", std::process::id()));
+    let _ = std::fs::remove_file(&path);
+    std::fs::write(&path, data).expect("write");
+    let uris: Vec<uri::Rsync> = probes.iter().map(|p| uri::Rsync::from_slice(p).unwrap()).collect();
+    let h = read_archive(&path, &uris, CALL_ALL);
+    if h.status == 4 {
+        panic!("{}", h.msg);
+    }
+}
+
+/// Seed corpus: valid encodings of the fixed bases and a few generated ones.
+pub fn write_seed_corpus(dir: &Path) {
+    let put = |target: &str, name: &str, data: &[u8]| {
+        let d = crate::fz::corpus_dir(target);
+        std::fs::create_dir_all(&d).unwrap();
+        std::fs::write(d.join(name), data).unwrap();
+    };
+    for (i, b) in fixed_bases().iter().enumerate() {
+        let e = b.encode();
+        put(&format!("dec_{}", b.rec().name()), &format!("fixed-{}", i), &e.data);
+        put("rt_records", &format!("fixed-{}", i), &e.data);
+    }
+    let recipe = fixed_recipe();
+    put("archive_file", "fixed-2-buckets", &build_archive(dir, &recipe).unwrap());
+    put("archive_file", "fixed-1-bucket", &build_archive(dir, &ArchRecipe { buckets: 1, ..recipe.clone() }).unwrap());
+    put("archive_file", "empty-4-buckets", &empty_archive([3; 16], 4));
+    put("archive_ops", "seq-1", &[0, 1, 0, 1, 2, 3, 4, 0, 2, 9, 9, 1, 4, 1, 0, 0, 1, 2, 3, 4, 7, 8, 2, 1, 4, 4, 4, 0]);
+    put("archive_ops", "seq-2", &[65, 7, 0, 6, 8, 1, 1, 0, 7, 2, 0, 2, 4, 6, 0, 0, 6, 4, 1, 0, 7, 0, 6, 2, 2, 2, 8, 7, 6, 0x16]);
+}
+
+//============ run ================================================================================
+
+/// Wall time per phase (informational only, written to the evidence).
+#[derive(Default)]
+struct Phase {
+    last: Option<std::time::Instant>,
+    secs: BTreeMap<String, f64>,
+}
+
+impl Phase {
+    fn mark(&mut self, rep: &mut Report, name: &str) {
+        let now = std::time::Instant::now();
+        let from = self.last.unwrap_or(now);
+        *self.secs.entry(name.to_string()).or_default() += (now - from).as_secs_f64();
+        self.last = Some(now);
+        rep.extra.insert("phase_wall_seconds".into(), serde_json::json!(self.secs));
+    }
+}
+
+fn record_case(ctx: &Ctx, rep: &mut Report, sub: &str, case: &impl SerDebug, f: impl FnOnce(&mut CaseInfo) -> Verdict) {
+    if rep.violated() {
+        return;
+    }
+    let mut info = CaseInfo::default();
+    let v = f(&mut info);
+    let tagged = Tagged { sub: sub.to_string(), case };
+    rep.record(ctx, &tagged, &info, &v);
+}
+
+pub trait SerDebug: Serialize + std::fmt::Debug {}
+impl<T: Serialize + std::fmt::Debug> SerDebug for T {}
+
+pub fn run(ctx: &Ctx, rep: &mut Report, replay: Option<&serde_json::Value>) {
+    rep.rule("(a) valid encodings of generated records (point header, manifest, object sequences, whole stored-point files, status, RRDP state) and RRDP archive files built with the real writer (1/2/4/1024 buckets, state + up to 6 objects, deletions leaving free blocks) under one mutation each: truncation, bit flip in a structural field or anywhere, length/count fields set to {0,1,len-1,len+1,rest+1,64Ki,limit,limit+1,2^31,2^32-1,2^32,2^40,2^62,2^63,2^64-2,2^64-1}, archive pointer/size/flag fields set to {0,1,2,self,other block,first block,inside index,EOF-1,EOF,EOF+1,2^31,2^63,2^64-1}, splices; (b) exhaustive sweeps over fixed bases: every truncation, every bit of every structural field, every length value for every length field; (c) arbitrary byte strings per decoder; (d) the seed corpus of the fuzz targets; each case runs in a worker process with panics caught, a cap on single allocations of max(16 MiB, 64 x input) and a CPU budget; non-trivial = the decoder got past at least one field (archives: past the magic) and then reported an error, or decoded a mutated input; distinct by serialised case");
+    rep.assume("a single allocation request above max(16 MiB, 64 x input length) counts as 'far beyond the file's size' (DESIGN §1 C27); constant-size allocations below that (the decoder's 65536-entry map pre-allocation, about 5.4 MB) are reported in largest_single_allocation_seen_per_decoder but not judged");
+    rep.assume("more than 2 s of CPU time on an input of a few KiB counts as not terminating; a wall-clock timeout alone is dropped as inconclusive");
+    rep.assume("the whole-engine leg (corrupt files in a real cache directory during a validation run) is not part of this check yet; decoder level and RrdpArchive::{verify,open,load_state,load_object,objects} only");
+    let scratch = ctx.scratch();
+    let dir = scratch.path().to_path_buf();
+    if std::env::var("RV_WRITE_CORPUS").is_ok() {
+        write_seed_corpus(&dir);
+        println!("seed corpus written");
+        std::process::exit(0);
+    }
+    let x = Exec::new(&dir);
+    let probes = all_probes();
+    // a replayed case is executed even if it has a known hazardous shape
+    let rk = replay.is_some();
+
+    let rec_case = |c: &RecCase, i: &mut CaseInfo| {
+        i.class(mutation_class(&c.mutation));
+        let e = c.base.encode();
+        let d = apply(&e, &c.mutation);
+        x.judge_record(c.base.rec(), &d, !matches!(c.mutation, Mutation::None), rk, i)
+    };
+    let raw_case = |c: &RawCase, i: &mut CaseInfo| {
+        i.class("mut=arbitrary-bytes");
+        x.judge_record(c.rec, &c.data.0, true, rk, i)
+    };
+    let base_cache: RefCell<std::collections::HashMap<String, Vec<u8>>> = RefCell::new(Default::default());
+    let arch_case = |c: &ArchCase, i: &mut CaseInfo| {
+        i.class(amut_class(&c.mutation));
+        i.class(format!("buckets={}", c.recipe.buckets));
+        // base archives are built once per recipe (building costs ~3 ms of mmap/munmap system calls)
+        let rkey = serde_json::to_string(&c.recipe).unwrap_or_default();
+        let cached = base_cache.borrow().get(&rkey).cloned();
+        let base = match cached {
+            Some(b) => b,
+            None => match build_archive(&dir, &c.recipe) {
+                Ok(b) => {
+                    let mut cache = base_cache.borrow_mut();
+                    if cache.len() >= 4096 {
+                        cache.clear();
+                    }
+                    cache.insert(rkey, b.clone());
+                    b
+                }
+                Err(e) => return Verdict::Dropped(format!("cannot build base archive: {}", e)),
+            },
+        };
+        let d = apply_arch(&base, &c.mutation);
+        x.judge_archive(&d, &probes, CALL_ALL, rk, i)
+    };
+    let arch_bytes = |d: &Hex, i: &mut CaseInfo| x.judge_archive(&d.0, &probes, CALL_ALL, rk, i);
+    let known_case = |c: &KnownCase, i: &mut CaseInfo| judge_known(&x, &dir, c, i);
+
+    if let Some(v) = replay {
+        let t: Tagged<serde_json::Value> = serde_json::from_value(v.clone()).expect("replay");
+        let sub = t.sub.as_str();
+        match sub {
+            "records" | "sweep-records" => run_case(ctx, rep, sub, &serde_json::from_value::<RecCase>(t.case).expect("case"), rec_case),
+            "bytes" => run_case(ctx, rep, sub, &serde_json::from_value::<RawCase>(t.case).expect("case"), raw_case),
+            "archive" | "sweep-archive" => run_case(ctx, rep, sub, &serde_json::from_value::<ArchCase>(t.case).expect("case"), arch_case),
+            "known" => run_case(ctx, rep, sub, &serde_json::from_value::<KnownCase>(t.case).expect("case"), known_case),
+            "corpus:archive_file" | "archive-bytes" | "fuzz:archive_file" => run_case(ctx, rep, sub, &serde_json::from_value::<Hex>(t.case).expect("case"), arch_bytes),
+            other if other.starts_with("fuzz:dec_") || other.starts_with("corpus:dec_") => {
+                let name = other.rsplit("dec_").next().unwrap_or("");
+                let rec = Rec::ALL.iter().copied().find(|r| r.name() == name).expect("decoder name");
+                run_case(ctx, rep, other, &serde_json::from_value::<Hex>(t.case).expect("case"), |d, i| x.judge_record(rec, &d.0, true, true, i))
+            }
+            other => panic!("unknown sub {}", other),
+        }
+        return;
+    }
+
+    let mut phase = Phase::default();
+    phase.mark(rep, "start");
+    // one directed representative per known key
+    for c in known_cases() {
+        if rep.violated() {
+            break;
+        }
+        run_case(ctx, rep, "known", &c, known_case);
+    }
+
+    phase.mark(rep, "known");
+    // (b) exhaustive sweeps over fixed bases
+    for base in fixed_bases() {
+        let e = base.encode();
+        let mut muts: Vec<Mutation> = vec![Mutation::None];
+        let len = e.data.len();
+        for n in 0..len {
+            muts.push(Mutation::Truncate(Index(n as u64)));
+        }
+        let sf = struct_fields(&e);
+        for (fi, f) in sf.iter().enumerate() {
+            for bit in 0..(f.len * 8) {
+                muts.push(Mutation::FlipStruct { field: Index(fi as u64), bit: bit as u8 });
+            }
+        }
+        let lf = len_fields(&e);
+        for fi in 0..lf.len() {
+            for v in LenVal::ALL {
+                muts.push(Mutation::SetLen { field: Index(fi as u64), value: v });
+            }
+        }
+        for m in muts {
+            let c = RecCase { base: base.clone(), mutation: m };
+            record_case(ctx, rep, "sweep-records", &c, |i| rec_case(&c, i));
+        }
+    }
+    phase.mark(rep, "sweep-records");
+    {
+        let recipe = fixed_recipe();
+        let base = build_archive(&dir, &recipe).expect("fixed archive");
+        let l = read_layout(&base, RRDP_META).expect("fixed archive layout");
+        let mut muts: Vec<AMut> = vec![AMut::None];
+        let step = ctx.tier.pick(3, 1);
+        for n in (0..base.len()).step_by(step) {
+            muts.push(AMut::Truncate(Index(n as u64)));
+        }
+        let offs = arch_struct_offsets(&l);
+        for oi in 0..offs.len() {
+            for bit in 0..8u8 {
+                if ctx.tier == Tier::Quick && (oi * 8 + bit as usize) % 2 == 1 && offs[oi] < 22 {
+                    continue; // hash key bits: every second one in the quick tier
+                }
+                muts.push(AMut::FlipStruct { at: Index(oi as u64), bit });
+            }
+        }
+        for field in AField::ALL {
+            let n = if matches!(field, AField::BucketCount) { 1 } else { l.blocks.len().max(3) };
+            for w in 0..n {
+                for value in AVal::ALL {
+                    muts.push(AMut::SetField { field, which: Index(w as u64), other: Index(((w + 1) % n) as u64), value });
+                }
+            }
+        }
+        for fi in 0..3 {
+            for v in LenVal::ALL {
+                muts.push(AMut::StateLen { field: Index(fi as u64), value: v });
+            }
+        }
+        for m in muts {
+            let c = ArchCase { recipe: recipe.clone(), mutation: m };
+            // same as arch_case, with the base built once
+            record_case(ctx, rep, "sweep-archive", &c, |i| {
+                i.class(amut_class(&c.mutation));
+                i.class(format!("buckets={}", c.recipe.buckets));
+                x.judge_archive(&apply_arch(&base, &c.mutation), &probes, CALL_ALL, false, i)
+            });
+        }
+    }
+    x.flush(rep);
+    phase.mark(rep, "sweep-archive");
+
+    // (a) generated bases, one mutation each; (c) arbitrary bytes
+    run_prop(ctx, rep, "records", ctx.tier.pick(20_000, 300_000), (base_strategy(), mutation_strategy()).prop_map(|(base, mutation)| RecCase { base, mutation }), rec_case);
+    run_prop(ctx, rep, "bytes", ctx.tier.pick(10_000, 100_000), raw_strategy(), raw_case);
+    phase.mark(rep, "records+bytes");
+    // recipes come from a pool generated once from the seed, so that base archives can be reused
+    let pool = sample_strategy(&recipe_strategy(), ctx.seed_for("archive-recipes"), ctx.tier.pick(150, 3_000));
+    run_prop(ctx, rep, "archive", ctx.tier.pick(8_000, 100_000), (prop::sample::select(pool), amut_strategy()).prop_map(|(recipe, mutation)| ArchCase { recipe, mutation }), arch_case);
+    run_prop(ctx, rep, "archive-bytes", ctx.tier.pick(500, 10_000), prop::collection::vec(any::<u8>(), 0..200).prop_map(|mut d| {
+        for (i, b) in ARCH_MAGIC.iter().enumerate() {
+            if i < d.len() && d.len() % 4 != 0 {
+                d[i] = *b;
+            }
+        }
+        Hex(d)
+    }), arch_bytes);
+    x.flush(rep);
+    phase.mark(rep, "archive");
+
+    // (d) seed corpus of the fuzz targets through the same judges
+    for rec in Rec::ALL {
+        let target = format!("dec_{}", rec.name());
+        crate::fz::replay_corpus(ctx, rep, &target, |d, i| x.judge_record(rec, d, true, false, i));
+    }
+    crate::fz::replay_corpus(ctx, rep, "archive_file", |d, i| x.judge_archive(d, &probes, CALL_ALL, false, i));
+    x.flush(rep);
+
+    if ctx.tier == Tier::Thorough {
+        for rec in Rec::ALL {
+            let target = format!("dec_{}", rec.name());
+            crate::fz::campaign(ctx, rep, &target, 60_000, 1024, |d, i| x.judge_record(rec, d, true, true, i));
+        }
+        crate::fz::campaign(ctx, rep, "archive_file", 50_000, 4096, |d, i| x.judge_archive(d, &probes, CALL_ALL, true, i));
+        x.flush(rep);
+    }
+}
+
